@@ -6,7 +6,7 @@ sidecar contract:  callee = contract (never body), loop = invariant, recursion =
 """
 import ast
 import z3
-from .core import Val, Raise, State, Obligation, Unsupported, fresh_const, exc_matches
+from .core import Val, Raise, State, Obligation, Unsupported, fresh_const, bound_var, exc_matches
 from .sorts import (sort_of, SExp, SList, Tree, S, Q, I, R, B, U, sv, SPEC_FUNCS, tval, divzero,
                     tree_refs_ok, leaf_of, slen)
 from . import models, source
@@ -857,6 +857,80 @@ class Interp(StmtMixin):
     def ev_GeneratorExp(self, e, st):
         yield from self.comprehension(e, st, "list")
 
+    def indexed_eval(self, st1, i, n, s2, exprs, line=None):
+        """Evaluate `exprs` at the symbolic index i (0 <= i < n) of a comprehension, in state s2 (= st1 + range + bound targets).
+        Allocation and heap initialisation inside the element expression are threaded through the iterations:
+          topf(k) = allocation counter after iteration k;  iteration k starts from topf(k-1) (st1.top for k = 0);
+          every value created inside (results of contract calls, havoc) is a skolem function of i (core.INDEX_STACK).
+        Yields ("raise", state, Raise) for raising outcomes and ("ok", state_after_all, [Val...]) for the normal one."""
+        from . import core
+        base_top = st1.top
+        topf = z3.Function(core.fresh_name("topf"), I, I)
+        start_top = z3.If(i <= 0, base_top, topf(i - 1))
+        s2.top = start_top
+        base_len = len(s2.conds)
+        base_heap = dict(s2.heap)
+        core.INDEX_STACK.append(i)
+        try:
+            res = list(self.ev_list(list(exprs), s2))
+        finally:
+            core.INDEX_STACK.pop()
+        normals = [(sx, v) for sx, v in res if not isinstance(v, Raise)]
+        for sx, v in res:
+            if isinstance(v, Raise):
+                sr = st1.fork()
+                sr.conds.extend(sx.conds[len(st1.conds):])      # some index raises (i is a witness constant here)
+                if self.feasible(sr):
+                    yield "raise", sr, v
+        if not normals:
+            return
+        if len(normals) != 1:
+            raise Unsupported("forking element expression in a comprehension over a symbolic sequence")
+        sx, vals = normals[0]
+        rng = z3.And(i >= 0, i < n)
+        s3 = st1.fork()
+        guard = sx.conds[base_len:]
+        if guard:
+            s3.conds.append(z3.ForAll([i], z3.Implies(rng, z3.And(*guard))))
+        allocates = not z3.eq(sx.top, start_top)
+        changed = []
+        for k in sx.heap:
+            if k not in base_heap:
+                # heap arrays are created lazily on first access: adopt the (index independent) base array
+                arr = sx.heap[k]
+                while z3.is_app_of(arr, z3.Z3_OP_STORE):
+                    arr = arr.arg(0)
+                base_heap[k] = arr
+                s3.heap[k] = arr
+            if not z3.eq(sx.heap[k], base_heap[k]):
+                changed.append(k)
+        if allocates or changed:
+            j = bound_var("cj", I)
+            s3.conds.append(z3.ForAll([i], z3.Implies(rng, topf(i) == sx.top)))
+            # lemma (by induction, each iteration only allocates): the counter is monotone
+            s3.conds.append(z3.ForAll([i], z3.Implies(rng, z3.And(topf(i) >= start_top, topf(i) >= base_top))))
+            s3.conds.append(z3.ForAll([i, j], z3.Implies(z3.And(i >= 0, i <= j, j < n), topf(i) <= topf(j))))
+            s3.top = z3.If(n <= 0, base_top, topf(n - 1))
+            for k in changed:
+                arr = sx.heap[k]
+                stores = []
+                while z3.is_app_of(arr, z3.Z3_OP_STORE):
+                    stores.append((arr.arg(1), arr.arg(2)))
+                    arr = arr.arg(0)
+                if not z3.eq(arr, base_heap[k]):
+                    raise Unsupported(f"heap field {k} is havocked inside a comprehension element")
+                owner, field = k.split(".")
+                hn = bound_var("H_" + k.replace(".", "_"), base_heap[k].sort())
+                x = bound_var("cx", I)
+                s3.conds.append(z3.ForAll([x], z3.Implies(x <= base_top, z3.Select(hn, x) == z3.Select(base_heap[k], x))))
+                for addr, val in stores:
+                    # the element expression may only initialise objects it allocated itself
+                    self.oblige(st1, "frame", f"write to {k} inside a comprehension targets an object allocated by that iteration",
+                                z3.ForAll([i], z3.Implies(z3.And(rng, *guard), addr > start_top)), line)
+                    s3.conds.append(z3.ForAll([i], z3.Implies(rng, z3.Select(hn, addr) == val)))
+                s3.heap[k] = hn
+        yield "ok", s3, vals
+
     def ev_DictComp(self, e, st):
         """{kexpr: vexpr for (k, v) in d.items()} / for x in seq — a dict *value*: (key sequence, key -> value array).
         The keys must be pairwise distinct (obligation `dictcomp-distinct`), otherwise 'last wins' would need modelling."""
@@ -875,7 +949,7 @@ class Interp(StmtMixin):
             if isinstance(it, Raise):
                 yield st1, it
                 continue
-            i = fresh_const("di", I)
+            i = bound_var("di", I)
             if zip_args:
                 def as_seq(v):
                     if is_ref(v.ty) and v.ty[1].startswith("dict_"):
@@ -907,15 +981,15 @@ class Interp(StmtMixin):
                 n = z3.Length(sq.t)
                 s2 = st1.assume(z3.And(i >= 0, i < n))
                 s2.env[g.target.id] = Val(sq.t[i], sq.ty[1])
-            self.spec_mode += 1
-            try:
-                kres = list(self.ev(e.key, s2))
-                vres = list(self.ev(e.value, s2))
-            finally:
-                self.spec_mode -= 1
-            if len(kres) != 1 or len(vres) != 1 or isinstance(kres[0][1], Raise) or isinstance(vres[0][1], Raise):
-                raise Unsupported("forking key/value expression in dict comprehension")
-            kv, vv = kres[0][1], vres[0][1]
+            outcome = None
+            for kind_, sy, payload in self.indexed_eval(st1, i, n, s2, [e.key, e.value], getattr(e, "lineno", None)):
+                if kind_ == "raise":
+                    yield sy, payload
+                else:
+                    outcome = (sy, payload)
+            if outcome is None:
+                continue
+            st1, (kv, vv) = outcome
             rk = fresh_const("dk", z3.SeqSort(kv.t.sort()))
             rm = fresh_const("dm", z3.ArraySort(kv.t.sort(), vv.t.sort()))
             rng = z3.And(i >= 0, i < n)
@@ -924,7 +998,7 @@ class Interp(StmtMixin):
                 # {k: v for k, v in d.items()}: a copy — same key sequence, same content (no fresh sequence to reason about)
                 rk, rm = ks.t, mp.t
             # distinct keys: kexpr(i) != kexpr(j) for i != j
-            j = fresh_const("dj", I)
+            j = bound_var("dj", I)
             kj = z3.substitute(kv.t, (i, j))
             self.oblige(st1, "dictcomp-distinct", "keys produced by the dict comprehension are pairwise distinct",
                         z3.ForAll([i, j], z3.Implies(z3.And(rng, j >= 0, j < n, i != j), kv.t != kj)), getattr(e, "lineno", None))
@@ -1004,7 +1078,7 @@ class Interp(StmtMixin):
                 s = self.seq_of(st1, it)
             if g.ifs:
                 raise Unsupported("filtered comprehension over symbolic sequence")
-            i = fresh_const("ci", I)
+            i = bound_var("ci", I)
             n = z3.Length(s.t)
             s2 = st1.assume(z3.And(i >= 0, i < n))
             base_len = len(s2.conds)
@@ -1017,32 +1091,23 @@ class Interp(StmtMixin):
                     s2.env[nm.id] = Val(dt.accessor(0, j)(elem.t), elem.ty[1][j])
             else:
                 raise Unsupported("comprehension target")
-            # element expression evaluated at a symbolic index: exactly one normal outcome (guarded by G(i)); raising outcomes
-            # become "some index raises"
-            res = list(self.ev(e.elt, s2))
-            normals = [(sx, v) for sx, v in res if not isinstance(v, Raise)]
-            for sx, v in res:
-                if isinstance(v, Raise):
-                    sr = st1.fork()
-                    sr.conds.extend(sx.conds[len(st1.conds):])     # a witness index exists (i is fresh here)
-                    if self.feasible(sr):
-                        yield sr, v
-            if len(normals) != 1:
-                if not normals:
-                    continue
-                raise Unsupported("forking element expression in comprehension over symbolic sequence")
-            sx, body = normals[0]
+            outcome = None
+            for kind_, sy, payload in self.indexed_eval(st1, i, n, s2, [e.elt], getattr(e, "lineno", None)):
+                if kind_ == "raise":
+                    yield sy, payload
+                else:
+                    outcome = (sy, payload)
+            if outcome is None:
+                continue
+            s3, (body,) = outcome
             if body.ty == "tuple":
                 tys = tuple(x.ty for x in body.py)
                 dt = sort_of(("tuple", tys))
                 body = Val(dt.constructor(0)(*[x.t for x in body.py]), ("tuple", tys))
-            guard = sx.conds[base_len:]
             rty = ("seq", body.ty)
             r = fresh_const("comp", sort_of(rty))
-            s3 = st1.assume(z3.Length(r) == n)
+            s3 = s3.assume(z3.Length(r) == n)
             rng = z3.And(i >= 0, i < n)
-            if guard:
-                s3 = s3.assume(z3.ForAll([i], z3.Implies(rng, z3.And(*guard))))
             s3 = s3.assume(z3.ForAll([i], z3.Implies(rng, r[i] == body.t), patterns=[r[i]]))
             yield s3, Val(r, rty)
 
